@@ -82,3 +82,12 @@ fn full_load_eof() {
     assert!(r.is_err(), "[C18] a header cut after fewer than 64 bytes is not decoded");
     assert!(r.err().unwrap().kind() == std::io::ErrorKind::UnexpectedEof, "[C18] truncated header is reported as UnexpectedEof");
 }
+
+// @harness id=full_payload_size_nopanic props=C04 kind=full tier=quick fns=RdhCru::payload_size
+// No precondition: memory_size is any u16 (values below 64 occur in corrupted data).
+#[kani::proof]
+fn full_payload_size_nopanic() {
+    let b: [u8; 64] = kani::any();
+    let r = RdhCru::from_buf(&b[..]).unwrap();
+    let _ = r.payload_size();
+}
